@@ -207,10 +207,16 @@ def isinstance_atom(e: ast.AST) -> Optional[Tuple[str, Set[str]]]:
 
 
 def known_instance(guards, subject: str, classes: Set[str]) -> bool:
-    """some guard establishes isinstance(subject, K) with K within `classes`"""
+    """some guard establishes isinstance(subject, K) with K within `classes` - directly, or as what is left of a positive test
+    against several classes once the negative tests are taken away (`isinstance(x, (A, B))` and `not isinstance(x, A)`)"""
+    excluded: Set[str] = set()
     for g, pol in guards:
         a = isinstance_atom(g)
-        if a and pol and a[0] == subject and a[1] <= classes:
+        if a and not pol and a[0] == subject:
+            excluded |= a[1]
+    for g, pol in guards:
+        a = isinstance_atom(g)
+        if a and pol and a[0] == subject and (a[1] <= classes or (a[1] - excluded and a[1] - excluded <= classes)):
             return True
     return False
 
